@@ -1035,6 +1035,69 @@ fn free_case(seed: u64, big: bool) -> (String, String, bool) {
     (format!("cap={cap}||{desc}|{seed}"), oracle, delivered >= 2 * n_upd as usize)
 }
 
+/// A link and its copy (`Link::clone`, as the file and null targets make them) both subscribed to one gate: two
+/// subscribers. Each gets every update published while it is connected, in order; one of them leaving (dropped,
+/// disconnected, or connecting again) takes nothing away from the other. Oracle only, like the free-running cases.
+fn copy_case(seed: u64) -> (String, String, bool) {
+    let mut r = Rng::new(seed);
+    let cap = r.range(2, 6) as usize;
+    let (n1, n2) = (r.range(1, 8) as u32, r.range(1, 8) as u32);
+    let how = r.below(5); // what happens between the two rounds
+    let first_copy = r.chance(1, 2);
+    let desc = format!("free copy n1={n1} n2={n2} how={how} first={}", first_copy as u8);
+    let rt = runtime();
+    let res: Result<Vec<String>, String> = rt.block_on(async {
+        let mut fails = vec![];
+        let (gate, mut agent) = Gate::new(cap);
+        let gate = Arc::new(gate);
+        let g2 = gate.clone();
+        let root_task = tokio::spawn(async move { loop { if g2.process().await.is_err() { break; } } });
+        let mut link = agent.create_link();
+        let mut copy = link.clone();
+        let (a, b) = if first_copy { (&mut copy, &mut link) } else { (&mut link, &mut copy) };
+        if a.connect(false).await.is_err() || b.connect(false).await.is_err() { return Err("copy:connect-failed".to_string()); }
+        // read n updates from a link, each within a second
+        async fn read(l: &mut Link, n: u32, who: &str, from: u32, fails: &mut Vec<String>) {
+            for i in 0..n {
+                match tokio::time::timeout(Duration::from_secs(2), l.query()).await {
+                    Ok(Ok(u)) => { let (_, seq) = rd_update(&u); if seq != from + i { fails.push(format!("copy:out-of-order {who} got seq {seq} want {}", from + i)); } }
+                    Ok(Err(e)) => { fails.push(format!("copy:upstream-reported-gone {who} at update {} ({e:?}) while the gate is alive", from + i)); return; }
+                    Err(_) => { fails.push(format!("copy:update-not-delivered {who} update {} of a connected link", from + i)); return; }
+                }
+            }
+        }
+        for seq in 1..=n1 {
+            if tokio::time::timeout(Duration::from_secs(5), gate.update_data(mk_update(0, seq))).await.is_err() { return Err("copy:publisher-stalled".to_string()); }
+            read(&mut link, 1, "link", seq, &mut fails).await;
+            read(&mut copy, 1, "copy", seq, &mut fails).await;
+        }
+        // between the rounds
+        let mut copy = Some(copy);
+        match how {
+            0 => { drop(copy.take()); }
+            1 => { if let Some(c) = copy.as_mut() { c.disconnect().await; } copy = None; }
+            2 => { if let Some(c) = copy.as_mut() { c.disconnect().await; if c.connect(false).await.is_err() { fails.push("copy:reconnect-failed".into()); } } }
+            3 => { if let Some(c) = copy.as_mut() { c.suspend().await; } copy = None; }
+            _ => {}
+        }
+        // a dropped link unsubscribes through a spawned task: let it happen
+        for _ in 0..20 { tokio::task::yield_now().await; }
+        tokio::time::sleep(Duration::from_millis(3)).await;
+        for seq in n1 + 1..=n1 + n2 {
+            if tokio::time::timeout(Duration::from_secs(5), gate.update_data(mk_update(0, seq))).await.is_err() { return Err("copy:publisher-stalled".to_string()); }
+            read(&mut link, 1, "link", seq, &mut fails).await;
+            if let Some(c) = copy.as_mut() { read(c, 1, "copy", seq, &mut fails).await; }
+        }
+        agent.terminate().await;
+        let _ = tokio::time::timeout(Duration::from_secs(5), root_task).await;
+        Ok(fails)
+    });
+    let mut fails = match res { Ok(f) => f, Err(e) => vec![e] };
+    fails.dedup();
+    let oracle = if fails.is_empty() { "ok".to_string() } else { format!("fail {} {}", fails[0].split_whitespace().next().unwrap(), fails.iter().take(4).cloned().collect::<Vec<_>>().join("; ")) };
+    (format!("cap={cap}||{desc}|{seed}"), oracle, true)
+}
+
 const FREE_IMPL: &str = "ok U=- S=- L=- T=- RT=false Q=0:0";
 
 // ---------------------------------------------------------------- generator
@@ -1136,6 +1199,12 @@ fn main() {
         for line in verif_harness::replay_cases(path) {
             let parts: Vec<&str> = line.split('|').collect();
             if parts.len() < 4 { continue; }
+            if parts[2].starts_with("free copy") {
+                let (line, oracle, nt) = copy_case(parts[3].trim().parse().unwrap_or(0));
+                rec.bump("cases.copy-replay");
+                rec.case(line, FREE_IMPL.into(), oracle, nt);
+                continue;
+            }
             if parts[2].starts_with("free") {
                 let seed: u64 = parts[3].trim().parse().unwrap_or(0);
                 let big = parts[2].split("updates=").nth(1).and_then(|x| x.split(' ').next()).and_then(|x| x.parse::<u32>().ok()).map(|n| n > 40).unwrap_or(false);
@@ -1192,6 +1261,14 @@ fn main() {
             if oracle != "ok" { rec.bump("oracle.fail"); }
             rec.case(line, FREE_IMPL.into(), oracle, nt);
         }
+    }
+
+    // a link and its copy on one gate (oracle only)
+    for _ in 0..(if args.thorough { 2000 } else { 200 }) {
+        let (line, oracle, nt) = copy_case(rng.next() >> 16);
+        rec.bump("cases.link-copy");
+        if oracle != "ok" { rec.bump("oracle.fail"); }
+        rec.case(line, FREE_IMPL.into(), oracle, nt);
     }
 
     // bounded-exhaustive: EVERY schedule with at most `bound` preemptions (switching away from an actor
